@@ -117,6 +117,13 @@ constexpr bool CopyOfFalseEntryLvalueIsFalse() { nop::Entry<bool, 1> f{false}; n
 static_assert(CopyOfFalseEntryLvalueIsFalse(), "W:optional_bool.copy_of_false_entry_lvalue_is_false");
 constexpr bool CopyOfFalseLvalueIsFalse() { nop::Optional<bool> f{false}; nop::Optional<bool> c{f}; return !c.empty() && !c.get(); }
 static_assert(CopyOfFalseLvalueIsFalse(), "W:optional_bool.copy_of_false_lvalue_is_false");
+// In-place construction with NO arguments constructs the value (value-initialised), it does not merely flip the flag: with a
+// storage default constructor in the overload set the empty pack selects it and the "value" is the inactive union member
+// (reading it is not a constant expression: the witness fails either way).
+constexpr bool InPlaceWithoutArgumentsConstructs() { nop::Optional<int> o{nop::InPlace{}}; return !o.empty() && o.get() == 0; }
+static_assert(InPlaceWithoutArgumentsConstructs(), "W:optional.in_place_without_arguments_constructs_the_value");
+constexpr bool EntryInPlaceWithoutArgumentsConstructs() { nop::Entry<int, 1> e{nop::InPlace{}}; return !e.empty() && e.get() == 0; }
+static_assert(EntryInPlaceWithoutArgumentsConstructs(), "W:entry.in_place_without_arguments_constructs_the_value");
 // MUSTCOMPILE optional_bool_lvalue_assignment
 inline void OptionalBoolAssign() {
   nop::Optional<bool> a, b{true};
